@@ -26,6 +26,10 @@ def ref_atoms(seq, mult, out):
     return out
 
 
+def printed_precision(seq):
+    return tuple((float("%g" % c), fr if core.isatom(fr) else printed_precision(fr)) for c, fr in seq)
+
+
 def printable(seq):
     for c, fr in seq:
         if not (c > 0):
@@ -83,8 +87,11 @@ def add_case(f, source):
                               what="str(f) = %r does not parse back (%s)" % (s, type(g).__name__), string=s, source=source))
         else:
             back = "(RStruct %s)" % struct_term(g.structure)
-            a0, a1 = ref_atoms(f.structure, 1, {}), ref_atoms(g.structure, 1, {})
-            if set(a0) != set(a1) or any(abs(a0[k] - a1[k]) > 1e-5 * abs(a0[k]) for k in a0):
+            # every count at its printed precision (six significant digits): the expected totals are those of the
+            # structure with each count rounded that way, level by level (a flat tolerance on the totals would
+            # demand more than the property states for deep nestings)
+            a0, a1 = ref_atoms(printed_precision(f.structure), 1, {}), ref_atoms(g.structure, 1, {})
+            if set(a0) != set(a1) or any(abs(a0[k] - a1[k]) > 1e-12 * abs(a0[k]) for k in a0):
                 fails.append(dict(signature="C13:roundtrip-atoms", what="formula(%r) has atoms %r, the printed formula had %r" % (s, a1, a0),
                                   string=s, source=source))
     else:
